@@ -111,7 +111,7 @@ func (l *kvsLock) TryLock(ctx context.Context) bool {
 		Value:     cast.StringToByteArray(""),
 		ExpiresAt: cast.Ptr(time.Now().Add(l.dlp.leaseTTL)),
 	}); err == nil {
-		l.future.Store(timeout.Call(func() { l.supportTimeout(ver) }, l.dlp.leaseTTL/2))
+		l.future.Store(l.renewIn(ver, l.dlp.leaseTTL/2))
 		return true
 	}
 	atomic.StoreInt32(&l.lckCntr, 0)
@@ -174,7 +174,7 @@ func (l *kvsLock) lockWithCtx(ctx context.Context) error {
 			ExpiresAt: cast.Ptr(time.Now().Add(l.dlp.leaseTTL)),
 		})
 		if err == nil {
-			l.future.Store(timeout.Call(func() { l.supportTimeout(ver) }, l.dlp.leaseTTL/2))
+			l.future.Store(l.renewIn(ver, l.dlp.leaseTTL/2))
 			return nil
 		}
 
@@ -209,18 +209,25 @@ func (l *kvsLock) supportTimeout(ver string) {
 		// the storage error is not about the record state (it can be temporary), so the lock is
 		// still held and the lease must be prolonged: try again with the same version shortly
 		l.dlp.logger.Warnf("supportTimeout could not update the key=%s, will try again: err=%s", l.key, err)
-		newFuture := timeout.Call(func() { l.supportTimeout(ver) }, l.dlp.leaseTTL/8)
+		newFuture := l.renewIn(ver, l.dlp.leaseTTL/8)
 		if !l.future.CompareAndSwap(future, newFuture) {
 			newFuture.Cancel()
 		}
 		return
 	}
-	newFuture := timeout.Call(func() { l.supportTimeout(r.Version) }, l.dlp.leaseTTL/2)
+	newFuture := l.renewIn(r.Version, l.dlp.leaseTTL/2)
 	if !l.future.CompareAndSwap(future, newFuture) {
 		// somebody already started the new timer, so drop this and forget about the incident
 		l.dlp.logger.Debugf("supportTimeout raise 2 detected, just cancelling the call timeout")
 		newFuture.Cancel()
 	}
+}
+
+// renewIn arms the lease renewal for the record version ver. The renewal talks to the storage, so it gets a
+// goroutine of its own: the workers of the timeout package are shared by all timers of the process, and a
+// worker waiting for a slow storage answer would hold back the renewals of the other locks
+func (l *kvsLock) renewIn(ver string, d time.Duration) timeout.Future {
+	return timeout.Call(func() { go l.supportTimeout(ver) }, d)
 }
 
 func (l *kvsLock) isLocked() bool {
